@@ -87,7 +87,7 @@ func c07RunOnce(f *wsFlow, session *saml.Session) c07Obs {
 		o.Diff = fmt.Sprintf("NameID: want %q got %q", session.NameID, a.Subject.NameID.Value)
 	default:
 		o.NameID = a.Subject.NameID.Value
-		o.Diff = wsDiffAttrs(wsExpectedAttrs(session), wsReturnedAttrs(a))
+		o.Diff = wsDiffAttrs(wsExpectedAttrs(session, f.Cfg.ReqAttrs), wsReturnedAttrs(a))
 	}
 	if len(a.AuthnStatements) > 0 {
 		o.SessIndex = a.AuthnStatements[0].SessionIndex
